@@ -477,11 +477,16 @@ class Run:
             return self.ev(n["then"] if self.truth(c, n["cond"]) else n["else"], fr)
         if k == "assign":
             v = self.ev(n["rhs"], fr)
-            self._save(self.lvalue(n["lhs"], fr), v)
+            lv = self.lvalue(n["lhs"], fr)
+            if lv[0] == "tmp":
+                self.element_write(n["lhs"], v, fr)
+            self._save(lv, v)
             return v
         if k == "cassign":
             lv = self.lvalue(n["lhs"], fr)
             v = self.binop(n["op"][:-1], self._load(lv), self.ev(n["rhs"], fr))
+            if lv[0] == "tmp":
+                self.element_write(n["lhs"], v, fr)
             self._save(lv, v)
             return v
         if k == "index":
@@ -704,6 +709,8 @@ class Run:
             v = self.binop(op[:-1], self._load(lv), ts[1])
             if lv[0] != "tmp":
                 self._save(lv, v)
+            else:
+                self.element_write(args[0], v, fr)
             return v
         if op == "()":
             self.events.append(Ev("call", "()", ts, n, fr.func))
